@@ -131,10 +131,11 @@ pub fn setup(handle: &Handle, cfg: &Cfg) -> Result<()> {
         let socket = handle.builder().build()?.socket();
         peer::start_client(socket, addr, cfg.clone())?;
     } else {
+        // build the s2n-quic endpoint first: a panic in its builders must not leave a quiche task behind
+        let client: Client = build!(Client::builder(), handle, cfg, "c", &cfg.s2n, certificates::CERT_PEM, 0xc1);
         let socket = handle.builder().build()?.socket();
         let addr = socket.local_addr()?;
         peer::start_server(socket, cfg.clone())?;
-        let client: Client = build!(Client::builder(), handle, cfg, "c", &cfg.s2n, certificates::CERT_PEM, 0xc1);
         start_client(client, addr, cfg.clone());
     }
     // watchdog: give up at the deadline (reported, so that "never terminates" is observable)
